@@ -37,6 +37,16 @@ CHECKS = {
             "Every string of the bounded language is written by the real code in seven positions and under black / no black / format-command, and the literal found in the file is evaluated independently.",
             "12-character alphabet incl. quotes, backslash, CR, LF, NUL, U+2028, astral; length bound; boundary-string family; black 26.5.1.",
             "DESIGN.md 5/C12"),
+    "C06": ("exploration",
+            "bounded-exhaustive differential enumeration: stored value x compared-value sequences (AST one-edit neighbours) x operation spellings; active-no-flags vs snapshot:=identity vs inactive state",
+            "Every program of the bounded family is executed three ways and the per-comparison logs must agree wherever plain Python does not raise; all ordered pairs of operations on one snapshot must raise TypeError.",
+            "Stored-value list and neighbour function in mc/checks/c06.py; bounds only on totally ordered kinds; dirty-equals absent.",
+            "DESIGN.md 5/C06"),
+    "C08": ("model_checking",
+            "state graph s0 -F-> s1 -F-> s2 for every initial program and every approved subset F; second transition must be a self-loop; real double pytest sessions for a slice",
+            "Histories of identical sessions are executed from every enumerated initial program under all 16 approved sets and the second transition is required to be a self-loop on the file state (plus: nothing left to create/fix/trim after full approval).",
+            "Initial programs of mc/checks/c08.py (tricky reprs, hand layouts, slack, wrong, empty); an internally noted update with an empty diff is allowed (DESIGN.md C08 scope).",
+            "DESIGN.md 5/C08"),
 }
 
 NOT_APPLICABLE = {
